@@ -235,7 +235,7 @@ __CPROVER_requires(logger->sinks.g_p < logger->sinks.n && g_T == logger->sinks.t
 __CPROVER_assigns(g_cache_has_tracked, g_cache_has_other, g_pushes_tracked)
 __CPROVER_ensures(!RET) /*@ C06 "the collection never stops early: every registered logger is visited" */
 __CPROVER_ensures(logger->valid ==> (g_cache_has_tracked && g_pushes_tracked == (OLD(g_cache_has_tracked) ? 0 : 1))) /*@ C06 "every sink of a valid logger is in the flush set, exactly once even when loggers share it" */
-__CPROVER_ensures((!logger->valid && logger->g_written_unflushed) ==> g_cache_has_tracked) /*@ C06 "a sink of a removed-but-still-registered logger that holds written, unflushed statements is in the flush set" K=flush-skips-removed-logger */
+__CPROVER_ensures((!logger->valid && logger->g_written_unflushed) ==> g_cache_has_tracked) /*@ C06 "a sink of a removed-but-still-registered logger that holds written, unflushed statements is in the flush set" */
 ''')],
     harness='  BW* s; LoggerBase* l; BW_collect_lambda(s, l);',
     dropped=['std::find_if over the cache rendered as a membership query', 'shared_ptr ownership of sinks'],
